@@ -79,6 +79,8 @@ pub enum EvKind {
     Exec { tag: Option<Tag>, stmt_name: String, sql: String, types: Vec<i32> },
     ProtoErr { code: String, tag: Option<Tag> },
     Close { by_terminate: bool },
+    /// harness-side marker (client closed its socket, admin command sent, ...)
+    Ctl(String),
 }
 
 #[derive(Clone, Debug)]
@@ -132,6 +134,10 @@ impl Shared {
         self.log.lock().unwrap().push(ev);
         self.notify.notify_waiters();
         seq
+    }
+
+    pub fn ctl(&self, what: &str) -> u64 {
+        self.push(usize::MAX, 0, EvKind::Ctl(what.to_string()))
     }
 
     pub fn snapshot(&self) -> Vec<Event> {
